@@ -330,7 +330,10 @@ fn rows_case() -> impl Strategy<Value = c05::Case> {
 }
 
 fn check_leaf_rows(c: &c05::Case) -> Verdict {
-    let (st, text) = match c05::inject_and_paint(c) {
+    // Last child (corner glyph, blank continuation prefix) or not (branch
+    // glyph, continuation rows behind the parent's vertical bar).
+    let is_last = c.sample_size % 2 == 1;
+    let (st, text) = match c05::inject_and_paint(c, is_last) {
         Ok(r) => r,
         Err(e) if e.starts_with("panic") => return Verdict::fail("paint-panic", format!("painting the leaf {e}")),
         Err(e) => return Verdict::Inconclusive(e),
@@ -377,7 +380,26 @@ fn check_leaf_rows(c: &c05::Case) -> Verdict {
         }
         v
     };
-    let got: Vec<Vec<String>> = lines[1..].iter().map(|l| cells(l)).collect();
+    let glyph = if is_last { '╰' } else { '├' };
+    if !lines[0].starts_with(glyph) {
+        return Verdict::fail("malformed-tree", format!("a {} child starts with {:?}\n{text}", if is_last { "last" } else { "non-last" }, lines[0].chars().next()));
+    }
+    let mut got: Vec<Vec<String>> = Vec::new();
+    for l in &lines[1..] {
+        // Under a non-last child every continuation row continues the bar.
+        let rest = if is_last {
+            if l.starts_with('│') {
+                return Verdict::fail("malformed-tree", format!("continuation row {l:?} of a last child starts with a bar\n{text}"));
+            }
+            *l
+        } else {
+            match l.strip_prefix('│') {
+                Some(r) => r,
+                None => return Verdict::fail("malformed-tree", format!("continuation row {l:?} of a non-last child does not continue the bar\n{text}")),
+            }
+        };
+        got.push(cells(rest));
+    }
     let trimmed = |rows: &[Vec<String>]| -> Vec<Vec<String>> {
         rows.iter()
             .map(|r| {
@@ -403,7 +425,7 @@ fn check_leaf_rows(c: &c05::Case) -> Verdict {
             return Verdict::fail("malformed-tree", format!("continuation row {l:?} looks like a new tree node\n{text}"));
         }
     }
-    classify(format!("counter rows {counter_rows}, alloc sections {sections}"));
+    classify(format!("counter rows {counter_rows}, alloc sections {sections}{}", if is_last { "" } else { ", non-last" }));
     Verdict::pass(sections >= 1 && sections < 5)
 }
 
